@@ -138,6 +138,7 @@ func VerifPipeUnblock(which int, buf int) {
 			err := sender.Send(ctx, 7)
 			vAtomic(func() { returned, rerr = true, err })
 		}()
+		vWindow() // native replay: let the Send park first (symbolically every order is explored anyway)
 		switch which {
 		case 0:
 			recv.Close()
@@ -164,6 +165,7 @@ func VerifPipeUnblock(which int, buf int) {
 			v, err := recv.Next(ctx)
 			vAtomic(func() { returned, rerr, rval = true, err, v })
 		}()
+		vWindow()
 		switch which {
 		case 3:
 			go func() { sender.Send(context.Background(), 9) }()
@@ -218,4 +220,56 @@ func VerifPipeTrySend(buf int) {
 	ok, err := s2.TrySend(cctx, 1)
 	vAssert(!ok && err == context.Canceled, "trysend/cancelled-context")
 	vCover("pipe-trysend")
+}
+
+// VerifPipeExpiredNext: the receiver polls with an already expired context while values are in
+// flight. Such a call may report the context error or hand out a value, but it must not consume
+// one silently: every value whose Send returned nil is still received, once, in order.
+// args: buffer size, polls with the expired context
+//verif:case C10 quick VerifPipeExpiredNext 0..2 1..2
+//verif:case C10 thorough VerifPipeExpiredNext 0..2 3
+func VerifPipeExpiredNext(buf int, polls int) {
+	sender, recv := Pipe[int](buf)
+	live := context.Background()
+	expired, cancel := context.WithCancel(live)
+	cancel()
+	const n = 2
+	sent := make([]bool, n)
+	go func() {
+		for i := 0; i < n; i++ {
+			if err := sender.Send(live, i); err != nil {
+				break
+			}
+			vAtomic(func() { sent[i] = true })
+		}
+		sender.Close(nil)
+	}()
+	next := 0
+	take := func(v int) {
+		vAssert(v == next, "pipe/values-in-order-each-once")
+		next = v + 1
+	}
+	for p := 0; p < polls; p++ {
+		v, err := recv.Next(expired)
+		if err == nil {
+			take(v)
+		} else {
+			vAssert(err == context.Canceled || err == End, "pipe/expired-next-reports-context-error-or-end")
+		}
+	}
+	for call := 0; call < n+1; call++ {
+		v, err := recv.Next(live)
+		if err != nil {
+			vAssert(err == End, "pipe/ends-after-sender-close")
+			break
+		}
+		take(v)
+	}
+	for i := 0; i < n; i++ {
+		ok := false
+		vAtomic(func() { ok = sent[i] })
+		vAssert(!ok || next > i, "pipe/value-whose-send-returned-nil-is-received")
+	}
+	recv.Close()
+	vCover("pipe-expired-next")
 }
